@@ -15,17 +15,30 @@ def entryJson : Entry → Json
   | .val v => jarr [Json.str "v", jint v]
   | .err k => jarr [Json.str "e", jnat k]
 
+def mkMod (l : Activate.Name) : R Mod :=
+  if h : colon ∉ l then pure ⟨l, h⟩ else throw s!"module name with a colon: {String.ofList l}"
+
+def parseMod (j : Json) : R Mod := do mkMod (← j.getStr?).toList
+
+def nameJson (l : Activate.Name) : Json := Json.str (String.ofList l)
+
+/-- a specifier as the dispatcher reads it: nothing = whole node; no colon = a module;
+otherwise `modulename, exportedname = specifier.split(':', 1)` -/
+def parseSpec (spec : Activate.Name) : R Scope := do
+  if spec.isEmpty then return .all
+  if spec.contains colon then
+    let m ← mkMod (spec.takeWhile (fun ch => ch != colon))
+    return .par m ((spec.dropWhile (fun ch => ch != colon)).drop 1)
+  else
+    return .mod (← mkMod spec)
+
 def parseScope (j : Json) : R Scope := do
   if j.isNull then return .all
-  match (← arr j) with
-  | [m] => return .mod (← m.getNat?)
-  | [m, p] => return .par (← m.getNat?) (← p.getNat?)
-  | _ => throw s!"bad scope {j.compress}"
+  parseSpec (← j.getStr?).toList
 
 def scopeJson : Scope → Json
   | .all => Json.null
-  | .mod m => jnats [m]
-  | .par m p => jnats [m, p]
+  | s => nameJson s.key
 
 def parseReq (j : Json) : R Req := do
   match (← arr j) with
@@ -45,16 +58,16 @@ def parseObs (j : Json) : R Obs := do
   match (← arr j) with
   | [.str "reqStart", c, r] => return .reqStart (← c.getNat?) (← parseReq r)
   | [.str "reply", c, r, ok] => return .reply (← c.getNat?) (← parseReq r) (← ok.getBool?)
-  | [.str "deliver", c, m, p, e] => return .deliver (← c.getNat?) (← m.getNat?) (← p.getNat?) (← parseEntry e)
-  | [.str "emit", u, m, p, e] => return .emit (← u.getNat?) (← m.getNat?) (← p.getNat?) (← parseEntry e)
+  | [.str "deliver", c, m, p, e] => return .deliver (← c.getNat?) (← parseMod m) (← p.getStr?).toList (← parseEntry e)
+  | [.str "emit", u, m, p, e] => return .emit (← u.getNat?) (← parseMod m) (← p.getStr?).toList (← parseEntry e)
   | [.str "emitDone", u] => return .emitDone (← u.getNat?)
   | _ => throw s!"bad obs {j.compress}"
 
 def obsJson : Obs → Json
   | .reqStart c r => jarr [Json.str "reqStart", jnat c, reqJson r]
   | .reply c r ok => jarr [Json.str "reply", jnat c, reqJson r, Json.bool ok]
-  | .deliver c m p e => jarr [Json.str "deliver", jnat c, jnat m, jnat p, entryJson e]
-  | .emit u m p e => jarr [Json.str "emit", jnat u, jnat m, jnat p, entryJson e]
+  | .deliver c m p e => jarr [Json.str "deliver", jnat c, nameJson m.val, nameJson p, entryJson e]
+  | .emit u m p e => jarr [Json.str "emit", jnat u, nameJson m.val, nameJson p, entryJson e]
   | .emitDone u => jarr [Json.str "emitDone", jnat u]
 
 def parseTid (j : Json) : R Tid := do
@@ -68,7 +81,7 @@ def parseLk (j : Json) : R Lk := do
   | .str "disp" => return .disp
   | .str "sub" => return .sub
   | _ => match (← arr j) with
-    | [.str "upd", m] => return .upd (← m.getNat?)
+    | [.str "upd", m] => return .upd (← parseMod m)
     | _ => throw s!"bad lock {j.compress}"
 
 def parseLabel (j : Json) : R Label := do
@@ -93,14 +106,17 @@ structure Setup where
 def parseSetup (j : Json) : R Setup := do
   let mods ← (← fldArr j "mods").mapM (fun x => do
     match (← arr x) with
-    | [m, ps] => return ((← m.getNat?), (← (← arr ps).mapM (·.getNat?)))
+    | [m, ps] => return ((← parseMod m), (← (← arr ps).mapM (fun x => do return (← x.getStr?).toList)))
     | _ => throw "bad module")
   let conns ← fldNats j "conns"
   let cache ← (← fldArr j "cache").mapM (fun x => do
     match (← arr x) with
-    | [m, p, e] => return (((← m.getNat?), (← p.getNat?)), (← parseEntry e))
+    | [m, p, e] => return (((← parseMod m), (← p.getStr?).toList), (← parseEntry e))
     | _ => throw "bad cache item")
-  let cfg : Cfg := ⟨mods.map (·.1), lookupD mods [], conns⟩
+  let broken ← match j.getObjVal? "logFails" with
+    | .ok x => (do return (← (← x.getArr?).toList.mapM (·.getNat?)))
+    | .error _ => pure []
+  let cfg : Cfg := ⟨mods.map (·.1), lookupD mods [], conns, fun c => broken.contains c⟩
   return ⟨cfg, fun m p => lookupD cache (.err 0) (m, p), mods.flatMap (fun x => x.2.map (fun p => (x.1, p)))⟩
 
 /-- run the invisible actions of thread `t` -/
@@ -164,7 +180,7 @@ def handle (j : Json) : R Json := do
       match (← arr x) with
       | [u, as] => return ((← u.getNat?), (← (← arr as).mapM (fun a => do
           match (← arr a) with
-          | [m, p, e] => return ((← m.getNat?), (← p.getNat?), (← parseEntry e))
+          | [m, p, e] => return ((← parseMod m), (← p.getStr?).toList, (← parseEntry e))
           | _ => throw "bad assignment")))
       | _ => throw "bad updater")
     let sched ← (← fldArr j "sched").mapM (fun x => do
@@ -184,7 +200,7 @@ def handle (j : Json) : R Json := do
       ("stuck", match stuck with | some (i, _) => jnat i | none => Json.null),
       ("why", match stuck with | some (_, e) => Json.str e | none => Json.null),
       ("trace", jarr (σe.trace.map obsJson)),
-      ("cache", jarr (su.items.map (fun x => jarr [jnat x.1, jnat x.2, entryJson (σe.cache x.1 x.2)]))),
+      ("cache", jarr (su.items.map (fun x => jarr [nameJson x.1.val, nameJson x.2, entryJson (σe.cache x.1 x.2)]))),
       ("done", Json.bool allDone),
       ("deadlock", Json.bool dead)]
   | "judge" =>
@@ -196,8 +212,8 @@ def handle (j : Json) : R Json := do
       ("snapshot", bad ((snapMon su.cfg su.cache).firstBad (snapMon su.cfg su.cache).init 0 tr)),
       ("noloss", bad ((lossMon su.cfg).firstBad (lossMon su.cfg).init 0 tr)),
       ("quiet", Json.bool (quietB tr)),
-      ("quiescent", match q with | some (c, m, p) => jnats [c, m, p] | none => Json.null),
-      ("cache", jarr (su.items.map (fun x => jarr [jnat x.1, jnat x.2, entryJson (cacheAfter su.cache tr x.1 x.2)])))]
+      ("quiescent", match q with | some (c, m, p) => jarr [jnat c, nameJson m.val, nameJson p] | none => Json.null),
+      ("cache", jarr (su.items.map (fun x => jarr [nameJson x.1.val, nameJson x.2, entryJson (cacheAfter su.cache tr x.1 x.2)])))]
   | _ => throw s!"C08: unknown verb {k}"
 
 end Frappy.Drive.C08
